@@ -17,11 +17,12 @@ open Stef.Idl
 
 /-- Accepted schemas are well-formed: every type reference resolves to exactly one definition
     of the right kind, top-level names are unique across structs/oneofs/multimaps/enums, field
-    names are unique within each struct/oneof, every root struct has at least one field, and
-    no field is left without a type. -/
+    names are unique within each struct/oneof, member names are unique within each enum, every
+    root struct has at least one field, and no field is left without a type. -/
 theorem parse_ok_wf (t : List Char) (σ : Schema) (h : parse t = .ok σ) : σ.WF := by
   have w := parseTokens_wf0 h
-  exact ⟨w.top_unique, w.fields_unique, w.root_nonempty, w.refs, parseTokens_noEmpty h⟩
+  exact ⟨w.top_unique, w.fields_unique, w.root_nonempty, w.refs, parseTokens_noEmpty h,
+    w.enum_members_unique⟩
 
 /-- non-vacuity: a schema with two roots, recursion through an array, a multimap, an enum,
     dictionaries and an unused struct is accepted (the unused struct `U` is pruned). -/
@@ -80,20 +81,29 @@ example : parse "package a struct A root { F M } multimap M { key value string }
 /-- non-vacuity: `sample` gets through all phases that contain panic sites and is accepted. -/
 example : (match parse sample with | .ok _ => true | _ => false) = true := by decide +kernel
 
-/-- Enum member names are NOT checked for uniqueness: the full statement
-    `∀ t σ, parse t = .ok σ → σ.EnumMembersUnique` is false (`dup-enum-member-accepted`). -/
+/-- Enum member names are unique in every accepted schema - for EVERY input. (Full statement;
+    it was false before commit ed6fa67, when `parseEnumField` had no duplicate check and
+    `enum E { X = 1 X = 2 }` was accepted, finding `dup-enum-member-accepted`. It is also the
+    last clause of `parse_ok_wf`.) -/
+theorem enum_members_unique (t : List Char) (σ : Schema) (h : parse t = .ok σ) :
+    σ.EnumMembersUnique :=
+  (parseTokens_wf0 h).enum_members_unique
+
+/-- the former witness of `dup-enum-member-accepted` is a positioned error now, at the repeated
+    identifier; the same enum with distinct member names is accepted (and kept: it is used). -/
 def dupEnumMember : List Char := "package a struct R root { F E } enum E { X = 1 X = 2 }".toList
 
-theorem enum_members_unique_false :
-    ¬ ∀ (t : List Char) (σ : Schema), parse t = .ok σ → σ.EnumMembersUnique := by
-  intro h
-  have hp : parse dupEnumMember = .ok
+example : parse dupEnumMember = .error ⟨47, 1, 48⟩ (.dupEnumField ['X']) := by decide +kernel
+
+/-- non-vacuity: an accepted schema that keeps an enum with several members (so the statement
+    is about a non-empty list of member names), and the check is per enum: the same member name
+    in two different enums is accepted. -/
+example : parse "package a struct R root { F E G E2 } enum E { X = 1 Y = 2 } enum E2 { X = 3 }".toList = .ok
       { pkg := [['a']],
         structs := [{ name := ['R'], isRoot := true,
-                      fields := [{ name := ['F'], ty := .base { prim := some .uint64, enum := ['E'] } }] }],
-        enums := [{ name := ['E'], fields := [⟨['X'], 1⟩, ⟨['X'], 2⟩] }] } := by decide +kernel
-  have := h _ _ hp ⟨['E'], [⟨['X'], 1⟩, ⟨['X'], 2⟩]⟩ (by simp)
-  revert this
-  decide
+                      fields := [{ name := ['F'], ty := .base { prim := some .uint64, enum := ['E'] } },
+                                 { name := ['G'], ty := .base { prim := some .uint64, enum := ['E','2'] } }] }],
+        enums := [{ name := ['E'], fields := [⟨['X'], 1⟩, ⟨['Y'], 2⟩] },
+                  { name := ['E','2'], fields := [⟨['X'], 3⟩] }] } := by decide +kernel
 
 end Stef.Props.C12
